@@ -67,7 +67,7 @@ def depths(vp):
 
 
 @st.composite
-def video_parameters(draw, max_size=24, regular=False, max_depth=16, pcm=None, simple=False):
+def video_parameters(draw, max_size=24, regular=False, max_depth=16, pcm=None, simple=False, min_size=1):
     """A valid VideoParameters + picture coding mode.
 
     regular=True: frame size is a multiple of the subsampling and (for interlaced sources or
@@ -87,8 +87,8 @@ def video_parameters(draw, max_size=24, regular=False, max_depth=16, pcm=None, s
     fields = pcm == PictureCodingModes.pictures_are_fields
     if fields or (regular and vp["source_sampling"] == SourceSamplingModes.interlaced):
         ym *= 2
-    w = draw(st.integers(1, max(1, max_size // xm))) * xm
-    h = draw(st.integers(1, max(1, max_size // ym))) * ym
+    w = draw(st.integers(max(1, -(-min_size // xm)), max(1, max_size // xm))) * xm
+    h = draw(st.integers(max(1, -(-min_size // ym)), max(1, max_size // ym))) * ym
     vp["frame_width"], vp["frame_height"] = w, h
     # clean area inside the frame
     if draw(st.booleans()):
@@ -149,7 +149,7 @@ def raw_picture_bytes_estimate(vp, pcm, dwt_depth, dwt_depth_ho):
 @st.composite
 def codec_features(draw, max_size=24, max_depth_bits=16, max_dwt=3, max_dwt_ho=2, regular=False,
                    profile=None, lossless=None, simple_vp=False, fragments=True, max_slices=6,
-                   big_budget=False, pcm=None, max_matrix=12):
+                   big_budget=False, pcm=None, max_matrix=12, min_size=1):
     """A valid CodecFeatures (level unconstrained)."""
     if profile is None:
         profile = draw(st.sampled_from([Profiles.high_quality, Profiles.low_delay]))
@@ -158,7 +158,7 @@ def codec_features(draw, max_size=24, max_depth_bits=16, max_dwt=3, max_dwt_ho=2
     if lossless:
         profile = Profiles.high_quality
     vp, pcm = draw(video_parameters(max_size=max_size, regular=regular, max_depth=max_depth_bits,
-                                    pcm=pcm, simple=simple_vp))
+                                    pcm=pcm, simple=simple_vp, min_size=min_size))
     wavelet_index = draw(st.sampled_from(WAVELETS))
     dwt_depth = draw(st.sampled_from([0] + list(range(1, max_dwt + 1)) * 2)) if max_dwt > 0 else 0
     asym = draw(st.sampled_from([False, False, True]))
